@@ -13,7 +13,7 @@ PROPERTY = 'C06'
 META = {
     'level': 'exploration',
     'technique': 'offline exactly-once / in-order checker over request and reply frame streams recorded at the client boundary of the real TCP simulator, keyed by unique 8-byte sender contexts',
-    'text': 'Session-less commands are also sent with handle 0 and random handles (the reply must echo them), and sessions at small depths are half-closed right after their burst (every complete request is still owed its reply). Sessions made of Register, List Services / Identity / Interfaces, Legacy 0x0001 and SendRRData carrying every service kind (successful, CIP-failing by range and type, '
+    'text': 'Refused requests are also followed by 1-5 requests already in flight behind them in the same burst (nothing is owed for those; everything up to and including the refusal is). Session-less commands are also sent with handle 0 and random handles (the reply must echo them), and sessions at small depths are half-closed right after their burst (every complete request is still owed its reply). Sessions made of Register, List Services / Identity / Interfaces, Legacy 0x0001 and SendRRData carrying every service kind (successful, CIP-failing by range and type, '
             'bundles of 1..20, attribute services), optionally ending with an unsupported service, an unroutable target or Unregister, are written to the real server by a writer thread at '
             'pipelining depths 1, 2, 8, 64 and 400 (the client receive buffer is shrunk so that the server really blocks in send) before the reader collects the replies. For every '
             'complete request there must be exactly one reply, in request order, with the same sender context, session handle and command, status 0 with a null-address item plus one 0xB2 '
